@@ -110,3 +110,19 @@ func VerifC20ClassifyShape() {
 		zzverif.Reach("C20.classify.malformed")
 	}
 }
+
+// VerifSelfNathole: translator validation kernel.
+func VerifSelfNathole() {
+	for _, a := range [][]string{{"1.2.3.4:100", "1.2.3.4:100"}, {"1.2.3.4:100", "1.2.3.4:103"}, {"1.2.3.4:100", "1.2.3.5:100"}, {"1.2.3.4:100", "1.2.3.5:200"},
+		{"1.2.3.4:100"}, {"bad", "1.2.3.4:1"}, {"1.2.3.4:x", "1.2.3.4:1"}, {"1.2.3.4:65535", "1.2.3.4:65530", "1.2.3.4:65533"}} {
+		f, err := ClassifyNATFeature(a, []string{"1.2.3.5"})
+		if err != nil {
+			zzverif.Observe("classify-err", len(a))
+			continue
+		}
+		zzverif.Observe("classify", f.NatType, f.Behavior, f.PortsDifference, f.RegularPortsChange, f.PublicNetwork)
+		for _, r := range getRangePorts(a, f.PortsDifference, 50) {
+			zzverif.Observe("range", r.From, r.To)
+		}
+	}
+}
